@@ -315,6 +315,125 @@ func apiCheckConcurrent(t *testing.T) {
 	}
 }
 
+// diffCount: number of leaf positions at which two JSON-like values differ
+func apiDiffCount(a, b interface{}) int {
+	switch x := a.(type) {
+	case map[string]interface{}:
+		y, ok := b.(map[string]interface{})
+		if !ok {
+			return 1
+		}
+		n := 0
+		for k, v := range x {
+			w, ok := y[k]
+			if !ok {
+				n++
+				continue
+			}
+			n += apiDiffCount(v, w)
+		}
+		for k := range y {
+			if _, ok := x[k]; !ok {
+				n++
+			}
+		}
+		return n
+	case []interface{}:
+		y, ok := b.([]interface{})
+		if !ok || len(x) != len(y) {
+			return 1
+		}
+		n := 0
+		for i := range x {
+			n += apiDiffCount(x[i], y[i])
+		}
+		return n
+	}
+	if reflect.DeepEqual(a, b) {
+		return 0
+	}
+	return 1
+}
+
+// C12 / C13: accessor mode returns one accessor per plain result, Get yields that value, Set writes
+// exactly one location, Get is live
+func apiCheckAccessor(t *testing.T) {
+	for _, p := range apiPaths() {
+		plain := apiParse(t, p, apiConfig(false))
+		acc := apiParse(t, p, apiConfig(true))
+		if plain == nil || acc == nil {
+			if (plain == nil) != (acc == nil) {
+				t.Errorf("REPRODUCED: %q parses in one mode only", p)
+			}
+			continue
+		}
+		for _, ds := range apiDocs() {
+			po, _ := apiEval(plain, apiDecode(ds))
+			ao, raw := apiEval(acc, apiDecode(ds))
+			if po != ao {
+				t.Errorf("REPRODUCED: %q on %s: plain mode gives %+v, accessor mode (through Get) gives %+v", p, ds, po, ao)
+				return
+			}
+			for i := range raw {
+				d := apiDecode(ds)
+				res, err := acc(d)
+				if err != nil || i >= len(res) {
+					break
+				}
+				a, ok := res[i].(Accessor)
+				if !ok {
+					t.Errorf("REPRODUCED: %q on %s: result %d in accessor mode is %T", p, ds, i, res[i])
+					return
+				}
+				if a.Set == nil {
+					continue
+				}
+				old := a.Get()
+				sentinel := "\x00verif-sentinel"
+				a.Set(sentinel)
+				if got := a.Get(); got != sentinel {
+					t.Errorf("REPRODUCED: %q on %s: accessor %d: Get after Set returns %v", p, ds, i, got)
+					return
+				}
+				if n := apiDiffCount(apiDecode(ds), d); n != 1 {
+					t.Errorf("REPRODUCED: %q on %s: Set through accessor %d changed %d locations (document now %s)", p, ds, i, n, apiSnapshot(d))
+					return
+				}
+				a.Set(old)
+				if n := apiDiffCount(apiDecode(ds), d); n != 0 {
+					t.Errorf("REPRODUCED: %q on %s: restoring through accessor %d leaves %d differences", p, ds, i, n)
+					return
+				}
+			}
+		}
+	}
+	// liveness: Get reflects a later in-place update
+	d := map[string]interface{}{"a": 1.0, "l": []interface{}{1.0, 2.0}}
+	for _, p := range []string{`$.a`, `$.l[1]`, `$.*`, `$..a`, `$['a']`, `$.l[*]`} {
+		f := apiParse(t, p, apiConfig(true))
+		if f == nil {
+			continue
+		}
+		res, err := f(d)
+		if err != nil {
+			continue
+		}
+		d["a"] = 5.0
+		d["l"].([]interface{})[1] = 6.0
+		for _, r := range res {
+			if a, ok := r.(Accessor); ok {
+				v := a.Get()
+				if v == 1.0 && p != `$.l[*]` && p != `$.*` || v == 2.0 {
+					t.Errorf("REPRODUCED: %q: Get returned the stale value %v after the location was updated in place", p, v)
+					return
+				}
+			}
+		}
+		d["a"] = 1.0
+		d["l"].([]interface{})[1] = 2.0
+	}
+}
+
 type apiStruct struct{ X int }
 
 // C20: documents with non-JSON leaves
@@ -356,6 +475,8 @@ func TestVerifReplay(t *testing.T) {
 		if !t.Failed() {
 			apiCheckPure(t)
 		}
+	case "C12", "C13":
+		apiCheckAccessor(t)
 	case "C20":
 		docs, names := apiForeignDocs()
 		apiCheckTotal(t, docs, names)
